@@ -28,14 +28,22 @@ static mjModel* get_model(unsigned long long seed, unsigned feat, int nbody) {
   return M;
 }
 
-// random polynomial stiffness terms on joints and tendons that have a spring
-static void randomize_poly(mjModel* m, mjg_rng* r) {
-  for (int j = 0; j < m->njnt; j++) if (m->jnt_stiffness[j] != 0 && mjg_chance(r, 0.6))
-    for (int k = 0; k < mjNPOLY; k++) m->jnt_stiffnesspoly[mjNPOLY * j + k] = mjg_range(r, 0, 10);
-  for (int t = 0; t < m->ntendon; t++) if (m->tendon_stiffness[t] != 0 && mjg_chance(r, 0.6))
-    for (int k = 0; k < mjNPOLY; k++) m->tendon_stiffnesspoly[mjNPOLY * t + k] = mjg_range(r, 0, 10);
-  // a dead band on some tendon springs
-  for (int t = 0; t < m->ntendon; t++) if (mjg_chance(r, 0.5)) { m->tendon_lengthspring[2 * t] -= 0.1; m->tendon_lengthspring[2 * t + 1] += 0.05; }
+// spring coefficients of every joint and tendon: every combination of {linear, quadratic, cubic} coefficient zero / non-zero
+// is produced (the mask cycles with the joint index, the repetition and the seed), in particular purely nonlinear springs
+// (linear stiffness 0, polynomial coefficients non-zero) and joints without any spring
+static void randomize_poly(mjModel* m, mjg_rng* r, unsigned long long seed, int rep) {
+  for (int j = 0; j < m->njnt; j++) {
+    unsigned mask = (unsigned)((3 * j + rep + seed) % 8);
+    m->jnt_stiffness[j] = (mask & 1) ? mjg_range(r, 1, 20) : 0;
+    for (int k = 0; k < mjNPOLY; k++) m->jnt_stiffnesspoly[mjNPOLY * j + k] = (mask & (2u << (k % 2))) ? mjg_range(r, 0.5, 10) : 0;
+  }
+  for (int t = 0; t < m->ntendon; t++) {
+    unsigned mask = (unsigned)((3 * t + rep + seed + 5) % 8);
+    m->tendon_stiffness[t] = (mask & 1) ? mjg_range(r, 1, 10) : 0;
+    for (int k = 0; k < mjNPOLY; k++) m->tendon_stiffnesspoly[mjNPOLY * t + k] = (mask & (2u << (k % 2))) ? mjg_range(r, 0.5, 10) : 0;
+    // a dead band on some tendon springs
+    if (mjg_chance(r, 0.5)) { m->tendon_lengthspring[2 * t] -= 0.1; m->tendon_lengthspring[2 * t + 1] += 0.05; }
+  }
 }
 
 // remove every non-conservative element
@@ -86,7 +94,7 @@ int main(void) {
     mjData* d = NULL;
     if (MJG_TRY) {
       if (op == 'T' || op == 'G') {
-        randomize_poly(m, &r);
+        randomize_poly(m, &r, seed, rep);
         m->opt.enableflags |= mjENBL_ENERGY;
         if (rep % 5 == 3) m->opt.disableflags |= mjDSBL_GRAVITY;
         if (rep % 7 == 4) m->opt.disableflags |= mjDSBL_SPRING;
@@ -129,12 +137,14 @@ int main(void) {
         }
       } else if (op == 'D') {
         double h0 = strtod(p, &p); int n = (int)strtol(p, &p, 10);
+        if (rep > 1) randomize_poly(m, &r, seed, rep);      // rep <= 1: the model's own (linear) springs
         make_conservative(m);
         d = mj_makeData(m);
         mjtNum* q0 = (mjtNum*)calloc(nq + 1, sizeof(mjtNum)); mjtNum* v0 = (mjtNum*)calloc(nv + 1, sizeof(mjtNum));
         mjg_random_state(m, d, &r, 1.0); clear_inputs(m, d);
         memcpy(q0, d->qpos, sizeof(mjtNum) * nq); memcpy(v0, d->qvel, sizeof(mjtNum) * nv);
-        p1("nv", nv); p1("njnt", m->njnt); pi("jnt_type", m->jnt_type, m->njnt);
+        p1("nv", nv); p1("njnt", m->njnt); pi("jnt_type", m->jnt_type, m->njnt); p1("npoly", mjNPOLY);
+        pd("jnt_stiffness", m->jnt_stiffness, m->njnt); pd("jnt_stiffnesspoly", m->jnt_stiffnesspoly, mjNPOLY * m->njnt);
         mjtNum drift[4], efin[4], e0 = 0, escale = 0;
         for (int lev = 0; lev < 4; lev++) {
           m->opt.timestep = h0 / (1 << lev);
